@@ -81,12 +81,19 @@ func init() {
 			}
 			// whether recovery succeeds is arbitrary
 			ex.mapIter = true // environment choice the native run cannot be steered into: sample executed, not compared
-			okc := ex.aux("recoverok")
-			if !ex.decide(Eq(okc, IntC(1))) {
+			pre := append(append([]Term{}, hash...), sig...)
+			// whether recovery succeeds is an arbitrary but fixed function of (hash, signature)
+			okb := ex.hashBytes("ecrecover-ok", pre, 1)[0]
+			if !ex.decide(Lt(okb, IntC(128))) {
 				return VTuple{VPtr{}, ex.mkErr("recovery failed", nil)}
 			}
-			addr := ex.hashBytes("ecrecover", append(append([]Term{}, hash...), sig...), 20)
+			addr := ex.hashBytes("ecrecover", pre, 20)
 			return VTuple{VPtr{O: ex.newObj(VOpaque{Kind: "pubkey", Data: addr})}, nilErr()}
+		}
+		// baseapp.ValidateVoteExtensions (CometBFT signature and voting-power validation of the extended commit):
+		// environment; assumed to accept (the harness states "the commit is valid")
+		m["github.com/cosmos/cosmos-sdk/baseapp.ValidateVoteExtensions"] = func(ex *Exec, fr *frame, cc *ssa.CallCommon, a []Value) Value {
+			return nilErr()
 		}
 		m["github.com/ethereum/go-ethereum/crypto.PubkeyToAddress"] = func(ex *Exec, fr *frame, cc *ssa.CallCommon, a []Value) Value {
 			o, ok := a[0].(VOpaque)
